@@ -53,14 +53,14 @@ Qed.
 
 Definition line_chunks (f : ofmt) (L : Z) (l : str) : list chunk := nl_chunks f L (Some None) ++ [CT false l].
 Definition string_chunks (f : ofmt) (L : Z) (s : str) : list chunk :=
-  match splitlines s with
+  match split_crlf s with
   | [] => []
   | l0 :: ls => CT false l0 :: flat_map (line_chunks f L) ls
   end.
 
 Lemma ch_push_string f o s : chunks (os_push_string f o s) = chunks o ++ string_chunks f (os_level o) s.
 Proof.
-  unfold os_push_string, string_chunks. destruct (splitlines s) as [|l0 ls]; [rewrite app_nil_r; reflexivity|].
+  unfold os_push_string, string_chunks. destruct (split_crlf s) as [|l0 ls]; [rewrite app_nil_r; reflexivity|].
   assert (G : forall ls o', chunks (fold_left (fun o'' l => os_push (os_push_newline f o'' (Some None)) l) ls o')
                             = chunks o' ++ flat_map (line_chunks f (os_level o')) ls).
   { induction ls0 as [|l ls0 IH]; intros o'; cbn [fold_left flat_map]; [rewrite app_nil_r; reflexivity|].
@@ -145,7 +145,7 @@ Proof. destruct ind as [[n|]|]; reflexivity. Qed.
 
 Lemma fields_string f L s : fields_of (string_chunks f L s) = [].
 Proof.
-  unfold string_chunks. destruct (splitlines s) as [|l0 ls]; [reflexivity|]. cbn [fields_of flat_map app].
+  unfold string_chunks. destruct (split_crlf s) as [|l0 ls]; [reflexivity|]. cbn [fields_of flat_map app].
   induction ls as [|l ls IH]; [reflexivity|]. cbn [flat_map]. fold (fields_of (line_chunks f L l ++ flat_map (line_chunks f L) ls)).
   rewrite fields_app. unfold fields_of at 2. rewrite IH. reflexivity.
 Qed.
